@@ -181,6 +181,23 @@ def _remove_invalid_keys(region_meta, valid_keys):
     return meta
 
 
+def _delimit_text(text):
+    """
+    Enclose a string in one of the DS9 text delimiters ({}, "" or '').
+
+    Curly braces are used unless the string contains a closing brace,
+    which would end it early.
+    """
+    text = str(text)
+    if '}' not in text:
+        return f'{{{text}}}'
+    if '"' not in text:
+        return f'"{text}"'
+    if "'" not in text:
+        return f"'{text}'"
+    return f'{{{text}}}'
+
+
 def _translate_metadata_to_ds9(region, shape):
     """
     Translate region metadata to valid ds9 meta keys.
@@ -204,7 +221,7 @@ def _translate_metadata_to_ds9(region, shape):
         meta['include'] = int(bool(meta['include']))
 
     if 'text' in meta:
-        meta['text'] = f'{{{meta["text"]}}}'
+        meta['text'] = _delimit_text(meta['text'])
 
     edgecolor = meta.pop('edgecolor', None)
     facecolor = meta.pop('facecolor', None)
